@@ -35,7 +35,7 @@ def main():
             seed=name, property_targeted=prop,
             origin=('reverse of a fix: commit in /repo' if name.startswith('RC') else 'independent sub-agent given only the text of the property and a scratch worktree (round %d)' % (1 if name[-1] in '12' else 2)),
             files_changed=files,
-            what_it_needs_to_manifest=(notes.strip().split('\n\n')[0][:1500] if notes else ''),
+            what_it_needs_to_manifest=(' '.join(notes.split())[:1400] if notes else ''),
             confirmed_by_me=confirm.get(name, old.get('confirmed_by_me', {})),
             how_confirmed="seeded/confirm.sh in a scratch worktree of /repo: demo passes on the unchanged tree, patch applies and builds, demo fails with it, pinned baseline suite run twice with it",
             checks_that_raise_a_violation=dict(old.get('checks_that_raise_a_violation', {}), **sweeps.get(name, {})),
